@@ -4,9 +4,15 @@
    Ast with an independent reading of a random declaration model under random layout.
    Proved here: the field / arm / typedef constructors keep type, array kind, bound and the
    optional flag of every grammar shape, and fall-through labels accumulate in order.
-   PARTIAL: the text-level round trip parse (print ds) = tree_of ds is not proved.
+   Proved at tree level (WalkProofs): for EVERY declaration list ds (Source.sdecl: any number
+   of declarations, fields, fall-through groups, labels), walking the token tree pest builds for
+   it yields exactly the items ds declares (C12_walk), and every type / constant / enum member
+   is retrievable by name with exactly that content, generics = opaque reachability (C12_ast).
+   PARTIAL: the text-level step  parse (print ds) = tree_of ds  (the PEG interpreter run on
+   every layout) is checked by K1 per spec, not proved.
    Finding F3: the bound of a typedef'd variable-length opaque is dropped (C05_refuted_F3). *)
-From XdrModel Require Import Walk.
+From XdrModel Require Import Walk Source.
+From XdrProofs Require Import IndexProofs WalkProofs.
 Open Scope string_scope.
 Open Scope list_scope.
 
@@ -64,3 +70,93 @@ Theorem C12_type_index_sorted_insert :
   = [("a", 1); ("b", 2); ("c", 3)].
 Proof. reflexivity. Qed.
 Print Assumptions C12_type_index_sorted_insert.
+
+(* ---- tree level, all declaration lists ---- *)
+
+(* one declaration: the walker returns exactly the item it stands for (enum values that are
+   neither numeral nor name panic on both sides: finding F11) *)
+Theorem C12_walk_decl : forall d, decl_ok d -> walk (t_decl d) = item_of d.
+Proof. exact walk_decl. Qed.
+Print Assumptions C12_walk_decl.
+
+(* a whole specification: every item, in declaration order, nothing else *)
+Theorem C12_walk :
+  forall ds items, Forall decl_ok ds -> emapM item_of ds = EOk items ->
+  walk (tree_of ds) = EOk (NRoot (items ++ [NEOF])).
+Proof. exact walk_spec. Qed.
+Print Assumptions C12_walk.
+
+(* the Ast built from it: lookup by name returns the declaration (the last one of that name
+   for types -- duplicates replace; constants and enum members cannot repeat), and the generic
+   set is opaque reachability *)
+Theorem C12_ast :
+  forall ds items A,
+  Forall decl_ok ds -> emapM item_of ds = EOk items -> ast_new (tree_of ds) = EOk A ->
+  (forall k, assoc k (types A) = last_type k items) /\
+  (forall k, assoc k (constants A) = last_const k items) /\
+  (no_prim_names (items ++ [NEOF]) -> forall n, mem n (generics A) = true <-> Reach (items ++ [NEOF]) n).
+Proof. exact ast_of_spec. Qed.
+Print Assumptions C12_ast.
+
+(* Ast::new fails on a conforming list only where the constant index does (duplicate names) *)
+Theorem C12_ast_total :
+  forall ds items, Forall decl_ok ds -> emapM item_of ds = EOk items ->
+  ast_new (tree_of ds) = ebind (const_index (items ++ [NEOF]) [])
+    (fun cs => EOk {| constants := cs; types := type_index (items ++ [NEOF]) []; generics := generic_index (items ++ [NEOF]) |}).
+Proof. exact ast_of_spec_total. Qed.
+Print Assumptions C12_ast_total.
+
+(* the union reference, spelled out: labels of a fall-through group all land on its arm *)
+Theorem C12_union_groups :
+  forall gs a, Forall group_ok gs -> ua_pending a = [] ->
+  union_loop (flat_map group_nodes gs) a = EOk (fold_left acc_add gs a).
+Proof. exact union_loop_groups. Qed.
+Print Assumptions C12_union_groups.
+
+(* the bridge from an actual pest tree to tree_of: the walker reads spans only on leaf tokens
+   and on the child of an array node, so a tree whose erasure is tree_of ds has the Ast of the
+   items ds declares.  K5 evaluates exactly these premises (erase (parse text) = tree_of ds,
+   decl_okb) on every generated declaration list and compares the conclusion with the real Ast. *)
+Theorem C12_walk_erase : forall t, walk (erase t) = walk t.
+Proof. exact walk_erase. Qed.
+Print Assumptions C12_walk_erase.
+
+Theorem C12_source_tie :
+  forall t ds items,
+  erase t = tree_of ds -> forallb decl_okb ds = true -> emapM item_of ds = EOk items ->
+  ast_new t = ast_of_root (NRoot (items ++ [NEOF])).
+Proof. exact source_tie. Qed.
+Print Assumptions C12_source_tie.
+
+(* non-vacuity: a list using every declaration kind meets decl_ok and yields an Ast *)
+Definition c12_demo : list sdecl :=
+  [KConst "MAX" "8";
+   KEnum "color" [("RED", "0"); ("BLUE", "0x10")];
+   KTypedef (TTBasic "opaque") "blob" (SVar (Some (BConst "MAX")));
+   KStruct "pt" [{| f_ty := TTBasic "unsigned   int"; f_name := "x"; f_arr := SFixed (BVal "3"); f_opt := false |};
+                 {| f_ty := TTIdent "pt"; f_name := "next"; f_arr := SNone; f_opt := true |};
+                 {| f_ty := TTIdent "blob"; f_name := "b"; f_arr := SVar None; f_opt := false |}];
+   KUnion "u" (TTIdent "color") "c"
+     [{| g_labels := [BConst "RED"; BVal "7"]; g_default := false; g_arm := ArmData (TTIdent "pt") "p" |};
+      {| g_labels := [BConst "BLUE"]; g_default := true; g_arm := ArmData (TTBasic "hyper") "h" |};
+      {| g_labels := [BVal "9"]; g_default := false; g_arm := ArmVoid |}]].
+
+Example C12_nonvacuous :
+  match emapM item_of c12_demo, ast_new (tree_of c12_demo) with
+  | EOk items, EOk A =>
+      andb (Nat.eqb (List.length items) 5)
+      (andb (match assoc "u" (types A) with
+             | Some (TUnion u) =>
+               andb (String.eqb (String.concat "," (flat_map uc_values (un_cases u))) "RED,7")
+               (andb (match un_default u with Some c => String.eqb (String.concat "," (uc_values c)) "BLUE,default" | None => false end)
+                     (String.eqb (String.concat "," (un_void u)) "9"))
+             | _ => false end)
+      (andb (mem "pt" (generics A)) (andb (mem "u" (generics A)) (negb (mem "color" (generics A))))))
+  | _, _ => false
+  end = true.
+Proof. vm_compute. reflexivity. Qed.
+
+Example C12_demo_ok : Forall decl_ok c12_demo.
+Proof.
+  repeat constructor; cbn; repeat split; try reflexivity; try discriminate; repeat constructor; try reflexivity; try discriminate.
+Qed.
